@@ -216,6 +216,7 @@ def run(sc):
         spec = M.new_spec(desc)
         stage = 'parse'
         M.api('parse', spec.parse)
+        M._late_config(spec)      # (run environment late_config: the configuration is issued after parse())
         if sc.get('early_update') and sc['pastify'] and not unsupported and sc['kind'] in ('dt_on', 'ct_on') \
                 and any(x[0] in sg.FUTURE_OPS for x in sg.walk(sc['ast'])):
             # the application calls update() BEFORE pastify(): a bounded-future specification is rejected (that is the clean
